@@ -30,18 +30,22 @@ package yubiattest
 //@ ghost func mOf(pub *rsa.PublicKey, sig []byte) int = modexp(b2i(elems(sig), off(sig), len(sig)), pub.E, bigv(pub.N))
 //@ ghost pure func emAt(k int, m int, j int) int =
 //@   j < k - min(bytelen(m), k) ? 0 : i2b(m)[j - (k - min(bytelen(m), k))]
-//@ ghost pure func plen(v int, h int) int = v == 1 ? p1len(h) : p2len(h)
-//@ ghost pure func pat(v int, h int, j int) int = v == 1 ? p1at(h, j) : p2at(h, j)
-//@ # EM = 00 01 FF..FF 00 prefix(v) digest, full length k; d/doff: the digest bytes
-//@ ghost pure func wf(k int, m int, v int, h int, d bytes, doff int) bool =
+//@ # EM = 00 01 FF..FF 00 prefix digest, full length k, for the two prefix variants; d/doff: the digest bytes
+//@ ghost pure func wf1(k int, m int, h int, d bytes, doff int) bool =
 //@   emAt(k, m, 0) == 0 && emAt(k, m, 1) == 1 &&
-//@   emAt(k, m, k - plen(v, h) - hsize(h) - 1) == 0 &&
-//@   forall(j, 2 <= j && j < k - plen(v, h) - hsize(h) - 1, emAt(k, m, j) == 255) &&
-//@   forall(j, 0 <= j && j < plen(v, h), emAt(k, m, k - plen(v, h) - hsize(h) + j) == pat(v, h, j)) &&
+//@   emAt(k, m, k - p1len(h) - hsize(h) - 1) == 0 &&
+//@   forall(j, 2 <= j && j < k - p1len(h) - hsize(h) - 1, emAt(k, m, j) == 255) &&
+//@   forall(j, 0 <= j && j < p1len(h), emAt(k, m, k - p1len(h) - hsize(h) + j) == p1at(h, j)) &&
+//@   forall(j, 0 <= j && j < hsize(h), emAt(k, m, k - hsize(h) + j) == d[doff + j])
+//@ ghost pure func wf2(k int, m int, h int, d bytes, doff int) bool =
+//@   emAt(k, m, 0) == 0 && emAt(k, m, 1) == 1 &&
+//@   emAt(k, m, k - p2len(h) - hsize(h) - 1) == 0 &&
+//@   forall(j, 2 <= j && j < k - p2len(h) - hsize(h) - 1, emAt(k, m, j) == 255) &&
+//@   forall(j, 0 <= j && j < p2len(h), emAt(k, m, k - p2len(h) - hsize(h) + j) == p2at(h, j)) &&
 //@   forall(j, 0 <= j && j < hsize(h), emAt(k, m, k - hsize(h) + j) == d[doff + j])
 //@ ghost func pkcsOK(pub *rsa.PublicKey, hash int, hashed []byte, sig []byte) bool =
 //@   len(hashed) == hsize(hash) && kOf(pub) >= p1len(hash) + hsize(hash) + 11 &&
-//@   (wf(kOf(pub), mOf(pub, sig), 1, hash, elems(hashed), off(hashed)) || wf(kOf(pub), mOf(pub, sig), 2, hash, elems(hashed), off(hashed)))
+//@   (wf1(kOf(pub), mOf(pub, sig), hash, elems(hashed), off(hashed)) || wf2(kOf(pub), mOf(pub, sig), hash, elems(hashed), off(hashed)))
 
 //@ func leftPad(input, size)
 //@   requires size >= 0
@@ -69,13 +73,13 @@ package yubiattest
 //@     invariant k == kOf(pub) && len(em) == k && forall(j, 0 <= j && j < k, em[j] == emAt(k, mOf(pub, sig), j))
 //@     invariant len(hashed) == hsize(hash) && hashLen == hsize(hash) && tLen1 == p1len(hash) + hsize(hash) && tLen2 == p2len(hash) + hsize(hash) && k >= tLen1 + 11
 //@     invariant (prefix1ok == 0 || prefix1ok == 1) && (prefix2ok == 0 || prefix2ok == 1)
-//@     invariant prefix1ok == 1 <==> (emAt(k, mOf(pub, sig), k - tLen1 - 1) == 0 &&
-//@       forall(j, 0 <= j && j < p1len(hash), emAt(k, mOf(pub, sig), k - tLen1 + j) == p1at(hash, j)))
-//@     invariant prefix2ok == 1 <==> (emAt(k, mOf(pub, sig), k - tLen2 - 1) == 0 &&
-//@       forall(j, 0 <= j && j < p2len(hash), emAt(k, mOf(pub, sig), k - tLen2 + j) == p2at(hash, j)))
-//@     invariant correctTLen == (prefix1ok == 1 ? tLen1 : prefix2ok == 1 ? tLen2 : 0)
+//@     invariant prefix1ok == 1 <==> (emAt(k, mOf(pub, sig), k - p1len(hash) - hsize(hash) - 1) == 0 &&
+//@       forall(j, 0 <= j && j < p1len(hash), emAt(k, mOf(pub, sig), k - p1len(hash) - hsize(hash) + j) == p1at(hash, j)))
+//@     invariant prefix2ok == 1 <==> (emAt(k, mOf(pub, sig), k - p2len(hash) - hsize(hash) - 1) == 0 &&
+//@       forall(j, 0 <= j && j < p2len(hash), emAt(k, mOf(pub, sig), k - p2len(hash) - hsize(hash) + j) == p2at(hash, j)))
+//@     invariant correctTLen == (prefix1ok == 1 ? p1len(hash) + hsize(hash) : prefix2ok == 1 ? p2len(hash) + hsize(hash) : 0)
 //@     invariant entry(ok) == 1 <==> (emAt(k, mOf(pub, sig), 0) == 0 && emAt(k, mOf(pub, sig), 1) == 1 &&
-//@       forall(j, 0 <= j && j < hsize(hash), emAt(k, mOf(pub, sig), k - hsize(hash) + j) == hashed[j]) &&
+//@       forall(j, 0 <= j && j < hsize(hash), emAt(k, mOf(pub, sig), k - hsize(hash) + j) == elems(hashed)[off(hashed) + j]) &&
 //@       (prefix1ok == 1 || prefix2ok == 1))
 //@     invariant 2 <= i && (ok == 0 || ok == 1)
 //@     invariant ok == 1 <==> (entry(ok) == 1 && forall(j, 2 <= j && j < i, emAt(k, mOf(pub, sig), j) == 255))
